@@ -609,6 +609,18 @@ def _selftest(ctx, binv, tmpd, full):
     t[1]["panic"] = "boom"
     kinds = {v[2] for v in tlc_trace(ctx, [t], False, "st-e")["viol"]}
     res["content_and_panic_flagged"] = {"get-content-differs", "panic"} <= kinds
+    # (h) cancelled, then InterruptGetNext, but the reader is reported parked again
+    prog2 = {"name": "selftest-h", "mode": "replay",
+             "threads": [[{"op": "Interrupt"}], [{"op": "GetNext", "id": 0}], [{"op": "Cancel", "t": 2}]],
+             "sched": [2, 2, 2, 3, 1, 2]}
+    tr2, _ = run_sched(ctx, binv, [prog2], tmpd, 1, "selftest-h")
+    t = json.loads(json.dumps(tr2[0]))
+    ok_base = not tlc_trace(ctx, [t], False, "st-h0")["viol"] and t[-2]["ret"]["k"] == "empty"
+    t[-2]["ret"] = {"k": "none", "id": 0, "exact": False}
+    t[-2]["pos"] = "parked"
+    t[-2]["parked"], t[-1]["parked"] = [2], [2]
+    kinds = {v[2] for v in tlc_trace(ctx, [t], False, "st-h")["viol"]}
+    res["cancelled_and_woken_but_parked_flagged"] = ok_base and "getnext-parked-though-cancelled-and-woken" in kinds
     # (f) replay comparison against a deliberately wrong projection
     r = ctx.tlc("OutStream", cfg="OutStream_sim.cfg", workers=1, simulate="num=3", depth=12,
                 deadlock=False, name="st-sim", timeout=120, seed=7)
